@@ -18,7 +18,7 @@ From Coq Require Import String.
 From Coq Require Import List NArith ZArith Bool.
 Open Scope string_scope.
 Open Scope list_scope.
-From Dials Require Import Base.Outcome Base.Runes Reflect.Ty Reflect.Ptrify Stack.Overlay Text.ParseText
+From Dials Require Import Base.Outcome Base.Runes Reflect.Ty Reflect.Ptrify Stack.Overlay Text.ParseInt Text.ParseIntProofs Text.Split Text.ParseText
   Sources.Flatten Sources.FlattenSpec Sources.Env Sources.EnvSpec Sources.Flags Sources.FlagsProofs Sources.FlagsFacts
   Sources.EnvGuards Sources.FlagsDefaults.
 Import ListNotations.
@@ -105,19 +105,21 @@ Theorem flag_accumulate_ints : forall sg b dflt texts vss,
               st_val st' = VList (concat vss).
 Proof. exact flag_accumulate_ints_l. Qed.
 
-(* Maps, sets and maps of slices: the first occurrence replaces, later ones merge. *)
+(* Maps, sets and maps of slices: the first occurrence replaces, later ones
+   merge; the texts are read by package parse (C15's map_ss_parse, string_set,
+   mss_parse). *)
 Theorem flag_accumulate_maps : forall st text,
-  (forall kvs, simple_kvs text = Ok kvs -> has_dup_key (map fst kvs) = false ->
+  (forall kvs, map_ss_parse isp0 text = Ok kvs ->
      flag_set FkStrMap st text =
      Ok (mkFstate (VMap (fold_left (fun m kv => map_put (VStr (fst kv)) (VStr (snd kv)) m) kvs
                                    (if st_defaulted st then [] else vmap_of (st_val st)))) false)) /\
-  (forall ws, simple_csv text = Ok ws -> has_dup_key ws = false ->
+  (forall ws, string_set isp0 text = Ok ws ->
      flag_set FkStrSet st text =
      Ok (mkFstate (VMap (fold_left (fun m w => map_put (VStr w) set_unit m) ws
                                    (if st_defaulted st then [] else vmap_of (st_val st)))) false)) /\
-  (forall kvs, simple_kvs text = Ok kvs ->
+  (forall kvs, mss_parse isp0 text = Ok kvs ->
      flag_set FkStrSliceMap st text =
-     Ok (mkFstate (VMap (group_kvs kvs (if st_defaulted st then [] else vmap_of (st_val st)))) false)).
+     Ok (mkFstate (VMap (merge_mss kvs (if st_defaulted st then [] else vmap_of (st_val st)))) false)).
 Proof. exact flag_accumulate_maps_l. Qed.
 
 (* A value outside the leaf type's range is an error: the std package's
@@ -140,8 +142,11 @@ Theorem flag_out_of_range_is_error_float32 : forall nm z,
   write_leaf PStd (FkFloat 64) (TPtr (TBasic (KFloat 32) nm)) (VFloat z) = Err 31.
 Proof. exact write_leaf_overflow_f32. Qed.
 
-Theorem flag_native_parse_in_range : forall b s z, (1 <= b)%N -> parse_int b s = Ok z ->
-  (- Z.of_N (pow2 (b - 1)) <= z < Z.of_N (pow2 (b - 1)))%Z.
+(* the packages' own integer setters (pflag: at the leaf's width) return the
+   literal's value inside the range of that size, or an error - C15's
+   characterisation of strconv.ParseInt *)
+Theorem flag_native_parse_in_range : forall b s z, good_bits b -> parse_int s b = Ok z ->
+  lit_value s = Some z /\ (- Z.of_N (2 ^ (b - 1)) <= z < Z.of_N (2 ^ (b - 1)))%Z.
 Proof. exact parse_int_range. Qed.
 
 Theorem flag_bad_value_is_error : forall p ne te fs tmpl occs regs states r st k,
